@@ -51,10 +51,15 @@ func (c15) Generate(r *engine.Rand, index int, tier string) *engine.Scenario {
 		sc.Class = "rescene"
 		sc.SetP("rescene", int64(r.Range(1, 2)))
 		sc.SetP("off_at", int64(r.Range(1, 17556)))
-		if r.Chance(1, 3) {
-			sc.SetP("off_at", int64(r.Range(16416, 17556))) // in (or just before) the vertical blank, where games do it
-		}
 		sc.SetP("off_for", int64(r.Range(1, 3000)))
+		if r.Chance(1, 3) {
+			// in the vertical blank of the picture (the PPU's frame starts where the LCD was switched on),
+			// where games do it
+			sc.SetP("off_at", (sc.P("on_at", 0)+int64(r.Range(16425, 17545)))%17556+1)
+			// and on again shortly after a frame was handed over, so that the next hand-over falls into
+			// the vertical blank of the first frame drawn after the restart (nothing of it redrawn yet)
+			sc.SetP("off_for", 17556-sc.P("off_at", 0)+int64(r.Range(1, 1000)))
+		}
 	}
 	sc.Cycles = 5 * 17556
 	if index%4 == 1 {
@@ -290,11 +295,14 @@ func (c15) Execute(sc *engine.Scenario) *engine.Result {
 	var cur *dmgref.Scene
 	curTag := ""
 	stableSince := uint64(0)
+	// after the LCD is switched on all 144 lines have been drawn once 16,416 cycles later; after a change
+	// made in the vertical blank with the LCD on, a whole frame and a line later
+	stableNeed := uint64(16416 + 8)
 	var compare func(s *dmgref.Scene, tag string)
 	m.OnFrame = func(f *image.RGBA) bool {
 		shown++
 		last = append(last[:0], f.Pix...)
-		if cur != nil && m.N >= stableSince+17556+128 && res.Violation == nil {
+		if cur != nil && m.N >= stableSince+stableNeed && res.Violation == nil {
 			if m.N < stableSince+2*17556 {
 				res.Probe("first_whole_frame_after_switch_on_judged")
 			}
@@ -419,7 +427,7 @@ func (c15) Execute(sc *engine.Scenario) *engine.Result {
 					m.Write(0xff40, b.LCDC)
 					done = true
 					res.Fault("scene_change_in_vblank")
-					cur, curTag, stableSince = b, "after-scene-change/", m.N
+					cur, curTag, stableSince, stableNeed = b, "after-scene-change/", m.N, 17556+128
 				}
 			default:
 				if m.N == offAt {
@@ -432,7 +440,7 @@ func (c15) Execute(sc *engine.Scenario) *engine.Result {
 					m.Write(0xff40, b.LCDC)
 					done = true
 					res.Fault("scene_change_with_lcd_off")
-					cur, curTag, stableSince = b, "after-scene-change/", m.N
+					cur, curTag, stableSince, stableNeed = b, "after-scene-change/", m.N, 16416+8
 				}
 			}
 		}
